@@ -4,8 +4,9 @@ From Coq Require Export String Ascii.
 From Coq Require Export List NArith ZArith Bool Arith Lia.
 Export ListNotations.
 
-Definition byte := N.
-Definition bytes := list N.
+(* notations, not definitions: terms mention only N and list N, so rewriting is never blocked by an alias *)
+Notation byte := N (only parsing).
+Notation bytes := (list N) (only parsing).
 
 Definition byte_ok (c : byte) : bool := (c <? 256)%N.
 Definition bytes_ok (l : bytes) : bool := forallb byte_ok l.
